@@ -241,23 +241,26 @@ impl GraphEngine {
             return Ok(id);
         }
 
-        // It's a new label.
-        // We update memory first to get the authoritative ID.
-        let returned_id = interner.get_or_create(name);
+        // It's a new label. It gets the next free ID; memory is only updated once the
+        // mapping is durable, so that a failed log write leaves the label neither in
+        // memory nor in the log.
+        let returned_id = interner.next_id();
 
-        // Durability: Log to WAL (post-facto, but before return)
+        // Durability: Log to WAL before updating memory.
         // We wrap this in a mini-transaction to ensure replayability.
         {
             let txid = self.next_txid.fetch_add(1, Ordering::Relaxed);
-            let mut wal = self.wal.lock().unwrap();
-            wal.append(&WalRecord::BeginTx { txid })?;
+            let mut wal = LoggedTx::begin(self.wal.lock().unwrap(), txid)?;
             wal.append(&WalRecord::CreateLabel {
                 name: name.to_string(),
                 label_id: returned_id,
             })?;
             wal.append(&WalRecord::CommitTx { txid })?;
             wal.fsync()?;
+            wal.keep();
         }
+        let created_id = interner.get_or_create(name);
+        debug_assert_eq!(created_id, returned_id);
 
         // Update Published Snapshot
         let snapshot = interner.snapshot();
@@ -659,6 +662,52 @@ fn build_segment_from_runs(seg_id: SegmentId, runs: &Arc<Vec<Arc<L0Run>>>) -> Cs
     }
 }
 
+/// Log access for one transaction: unless [`LoggedTx::keep`] is called, dropping it
+/// (e.g. on an early `?` return) rolls the log back to where the transaction began, so
+/// that a transaction reported as failed can never reappear after a restart and no
+/// partial transaction stays in the middle of the log.
+struct LoggedTx<'w> {
+    wal: std::sync::MutexGuard<'w, Wal>,
+    tx_start: u64,
+    keep: bool,
+}
+
+impl<'w> LoggedTx<'w> {
+    fn begin(mut wal: std::sync::MutexGuard<'w, Wal>, txid: u64) -> Result<Self> {
+        let tx_start = wal.append(&WalRecord::BeginTx { txid })?;
+        Ok(Self {
+            wal,
+            tx_start,
+            keep: false,
+        })
+    }
+
+    fn keep(mut self) {
+        self.keep = true;
+    }
+}
+
+impl std::ops::Deref for LoggedTx<'_> {
+    type Target = Wal;
+    fn deref(&self) -> &Wal {
+        &self.wal
+    }
+}
+
+impl std::ops::DerefMut for LoggedTx<'_> {
+    fn deref_mut(&mut self) -> &mut Wal {
+        &mut self.wal
+    }
+}
+
+impl Drop for LoggedTx<'_> {
+    fn drop(&mut self) {
+        if !self.keep {
+            let _ = self.wal.truncate_to(self.tx_start);
+        }
+    }
+}
+
 pub struct WriteTxn<'a> {
     engine: &'a GraphEngine,
     _guard: std::sync::MutexGuard<'a, ()>,
@@ -818,8 +867,7 @@ impl<'a> WriteTxn<'a> {
 
         // 1) Append WAL and fsync (durability Full by default).
         {
-            let mut wal = self.engine.wal.lock().unwrap();
-            wal.append(&WalRecord::BeginTx { txid: self.txid })?;
+            let mut wal = LoggedTx::begin(self.engine.wal.lock().unwrap(), self.txid)?;
 
             for (external_id, label_id, internal_id) in &self.created_nodes {
                 wal.append(&WalRecord::CreateNode {
@@ -1067,6 +1115,7 @@ impl<'a> WriteTxn<'a> {
             // wal.append calls flush internally, we just need fsync at end of commit
             wal.append(&WalRecord::CommitTx { txid: self.txid })?;
             wal.fsync()?;
+            wal.keep();
         }
 
         let has_new_nodes = !self.created_nodes.is_empty();
